@@ -759,13 +759,24 @@ def fingerprint(obj, top=True, _depth=0):
                                                  for n in slots if not n.startswith("_"))
         r = repr(obj)
         return (type(obj).__name__, r if " at 0x" not in r else "<object>")      # never an address
+    import dataclasses
+    import functools
+    # declared state only: for dataclasses their fields; never values that a functools.cached_property (or any other
+    # descriptor of the class) computed and parked in the instance dict; never private / name-mangled attributes
+    if dataclasses.is_dataclass(obj):
+        names = [f.name for f in dataclasses.fields(obj)]
+    else:
+        names = sorted(d)
     items = []
-    for kname in sorted(d):
+    for kname in names:
+        if kname not in d:
+            continue
         if top and kname in _EXCLUDE_TOP:
             continue
         if kname.startswith("_"):
-            # private and name-mangled attributes (lazy indexes, memo tables, cached properties) are not part of what a
-            # definition means; the library's own equality ignores them too
+            continue
+        cls_attr = getattr(type(obj), kname, None)
+        if isinstance(cls_attr, (functools.cached_property, property)):
             continue
         items.append((kname, fingerprint(d[kname], False, _depth + 1)))
     return (type(obj).__name__,) + tuple(items)
@@ -787,7 +798,8 @@ def canon_item(item):
                 bytes(rd) if rd is not None else None, getattr(rd, "pos", None))
     if isinstance(item, bytes):
         return ("RAW", bytes(item))
-    return ("OTHER", type(item).__name__, repr(item))
+    r = repr(item)
+    return ("OTHER", type(item).__name__, r if " at 0x" not in r else "<object>")
 
 
 _ = struct   # (kept for callers that want to build float payloads)
